@@ -91,6 +91,12 @@ def readBitsInt (r : Reader) (n : Nat) : Option Nat × Reader :=
 /-- `delta << d.trailing` on `uint64` (a shift count ≥ 64 gives 0) -/
 def shl64 (x s : Nat) : Nat := if s ≥ 64 then 0 else (x <<< s) % two64
 
+/-- tail of `Next()`: read the meaningful bits and xor them into the value -/
+def Dec.finish (d : Dec) (blockSize : Nat) (r : Reader) : Bool × Dec × Reader :=
+  match readBitsInt r blockSize with
+  | (none, r3) => (false, { d with err := true }, r3)
+  | (some delta, r3) => (true, { d with val := d.val ^^^ shl64 delta d.trailing }, r3)
+
 /-- `XORDecoder.Next()` → (result, decoder, reader) -/
 def Dec.next (d : Dec) (r : Reader) : Bool × Dec × Reader :=
   if d.err then (false, d, r)
@@ -106,10 +112,6 @@ def Dec.next (d : Dec) (r : Reader) : Bool × Dec × Reader :=
       let (b2, e2, r2) := r1.readBit
       if e2 then (false, { d with err := true }, r2)
       else
-        let finish (d : Dec) (blockSize : Nat) (r : Reader) : Bool × Dec × Reader :=
-          match readBitsInt r blockSize with
-          | (none, r3) => (false, { d with err := true }, r3)
-          | (some delta, r3) => (true, { d with val := d.val ^^^ shl64 delta d.trailing }, r3)
         if !b2 then
           match r2.readBits 6 with
           | (none, r3) => (false, { d with leading := 0, err := true }, r3)
@@ -120,9 +122,9 @@ def Dec.next (d : Dec) (r : Reader) : Bool × Dec × Reader :=
             | (some bs, r4) =>
               let blockSize := bs + blockSizeAdjustment
               let d := { d with trailing := sub64 d.leading blockSize }
-              finish d blockSize r4
+              d.finish blockSize r4
         else
-          finish d (sub64 d.leading d.trailing) r2
+          d.finish (sub64 d.leading d.trailing) r2
 
 /-- `XORDecoder.Value()` -/
 def Dec.value (d : Dec) : Nat := d.val
